@@ -424,6 +424,10 @@ var c15Fixed = [][]byte{
 	[]byte("package a\n\n//line a.y:100\nfunc f() {\n\tg()\n}\n"), []byte("//line g.y:2\npackage a\n\nvar s = `x\ny`\n"),
 	[]byte("package a\n\n//line a.y:100000\n/* multi\nline */\nfunc f() {}\n"), []byte("package a\n\nfunc f() { /*line b.go:500:3*/ g() }\n"),
 	[]byte("package a\n\n//line a.y:7\nfunc f() {\n//line a.y:7\n\tg()\n//line a.y:3\n\th()\n}\n"), []byte("package a\n\n//line :0\nvar x = 1\n//line a.y:99\nvar y = `a\n"),
+	// what stands in front of the package clause: line breaks, blanks, a byte-order mark, comments
+	[]byte("\npackage a\n"), []byte("\n\n\npackage a\n\nfunc f() {}\n"), []byte("\r\npackage a"), []byte(" \n// c\npackage a\n"),
+	[]byte("\n/* x\n*/\npackage a\n\nvar x = 1\n"), []byte("\xEF\xBB\xBF\npackage p\n"), []byte("\t\npackage p\n"), []byte("// c\n\n\npackage p\n"),
+	[]byte("/* c */ package p\n"), []byte("\n// c\n\npackage p // t\n"), []byte("\n\n"), []byte("\n// only a comment\n"), []byte(" package p"),
 	[]byte("package p // c\n// d"), []byte("//go:build x\n"), []byte("package p\n\nfunc f() {\n\tlabel:\n}\n"), []byte("package p\n\nfunc f() {\n\tgoto\n}\n"),
 }
 
